@@ -35,62 +35,74 @@ const (
 // eras of the cross-chain arbiter rules, reached by setting the era heights of the
 // configuration handed to the checker (what the repository's own tests do).
 type era struct {
-	Name  string
-	Tweak func(p *config.Configuration)
+	Name string
+	// ClaimStart = CRClaimDPOSNodeStartHeight, NodesStart = DPOSNodeCrossChainHeight of the era's
+	// configuration; Heights are the block heights the verdicts are taken at.
+	ClaimStart, NodesStart uint32
+	Heights                []uint32
+	Tweak                  func(p *config.Configuration)
 }
+
+// boundary era: both era thresholds lie above the restriction height and are crossed by the
+// height menu itself.
+const (
+	boundaryClaim uint32 = 2300000
+	boundaryNodes uint32 = 2400000
+)
 
 func eras(n int) []era {
-	base := func(p *config.Configuration) {
-		p.CRConfiguration.MemberCount = uint32(n)
-		p.CRConfiguration.CRAgreementCount = uint32(n * 2 / 3)
-		p.DPoSConfiguration.NormalArbitratorsCount = n * 2 / 3
-		p.CrossChainUTXOFreezeHeight = freezeH
-		p.CrossChainUTXORestrictionHeight = restrictionH
-		p.SchnorrStartHeight = math.MaxUint32
+	mk := func(name string, claim, nodes uint32, heights []uint32) era {
+		return era{Name: name, ClaimStart: claim, NodesStart: nodes, Heights: heights, Tweak: func(p *config.Configuration) {
+			p.CRConfiguration.MemberCount = uint32(n)
+			p.CRConfiguration.CRAgreementCount = uint32(n * 2 / 3)
+			p.DPoSConfiguration.NormalArbitratorsCount = n * 2 / 3
+			p.CrossChainUTXOFreezeHeight = freezeH
+			p.CrossChainUTXORestrictionHeight = restrictionH
+			p.SchnorrStartHeight = math.MaxUint32
+			p.CRConfiguration.CRClaimDPOSNodeStartHeight = claim
+			p.DPoSConfiguration.DPOSNodeCrossChainHeight = nodes
+		}}
 	}
+	aroundR := []uint32{restrictionH - 1, restrictionH, restrictionH + 1}
 	return []era{
-		{"council", func(p *config.Configuration) { // mainnet today: council claims DPoS nodes, DPoS nodes not yet cross-chain arbiters
-			base(p)
-			p.CRConfiguration.CRClaimDPOSNodeStartHeight = 751400
-			p.DPoSConfiguration.DPOSNodeCrossChainHeight = math.MaxUint32
-		}},
-		{"dpos-nodes", func(p *config.Configuration) {
-			base(p)
-			p.CRConfiguration.CRClaimDPOSNodeStartHeight = 751400
-			p.DPoSConfiguration.DPOSNodeCrossChainHeight = 1000000
-		}},
-		{"early", func(p *config.Configuration) {
-			base(p)
-			p.CRConfiguration.CRClaimDPOSNodeStartHeight = math.MaxUint32
-			p.DPoSConfiguration.DPOSNodeCrossChainHeight = math.MaxUint32
-		}},
+		// mainnet today: council claims DPoS nodes, DPoS nodes not yet cross-chain arbiters
+		mk("council", 751400, math.MaxUint32, aroundR),
+		mk("dpos-nodes", 751400, 1000000, aroundR),
+		mk("early", math.MaxUint32, math.MaxUint32, aroundR),
+		// the two era thresholds themselves: -1, =, +1 around each
+		mk("boundary", boundaryClaim, boundaryNodes, []uint32{boundaryClaim - 1, boundaryClaim, boundaryClaim + 1,
+			boundaryNodes - 1, boundaryNodes, boundaryNodes + 1}),
 	}
 }
 
-// required number of arbiters per era and payload version — the agreement count the
-// configuration defines for that era (two thirds of the council, +1 where the rule says so).
-func required(eraName string, version byte, n int) int {
+// required number of arbiters at height h for a payload version, from the parameters alone:
+// the quorum is two thirds of the council (CRAgreementCount / MemberCount*2/3) while the
+// council's claimed nodes are the cross-chain arbiters, i.e. from CRClaimDPOSNodeStartHeight up
+// to but excluding DPOSNodeCrossChainHeight, and two thirds + 1 before that era and from
+// DPOSNodeCrossChainHeight on (the height from which the DPoS nodes are the arbiters). A named
+// start height belongs to the era it starts; where the code is stricter than this (V2 at
+// exactly CRClaimDPOSNodeStartHeight) nothing is violated.
+func required(e era, version byte, n int, h uint32) int {
 	two3 := n * 2 / 3
-	switch version {
-	case 2:
-		if eraName == "council" {
-			return two3
-		}
+	switch {
+	case h >= e.NodesStart:
 		return two3 + 1
-	case 1:
-		if eraName == "dpos-nodes" {
-			return two3 + 1 // NormalArbitratorsCount + 1
-		}
-		return two3 // CRAgreementCount
-	default:
-		switch eraName {
-		case "dpos-nodes":
-			return two3 + 1
-		case "early":
-			return two3 + 1 // more than the majority count
-		}
+	case version == 1:
+		return two3 // V1 knows no earlier era: CRAgreementCount below DPOSNodeCrossChainHeight
+	case h >= e.ClaimStart:
 		return two3
 	}
+	return two3 + 1
+}
+
+func eraByName(n int, name string) era {
+	for _, e := range eras(n) {
+		if e.Name == name {
+			return e
+		}
+	}
+	evid.Fatalf("unknown era %q", name)
+	return era{}
 }
 
 type fixtureA struct {
@@ -229,6 +241,38 @@ func mkWithdraw(version byte, signers []uint8, ins []*common2.Input, to common.U
 	return transaction.CreateTransaction(common2.TxVersion09, common2.WithdrawFromSideChain, version, pl, nil, ins, outs, 0, progs)
 }
 
+// slot of an output layout: a plain (change) output or a withdraw carrying a side-chain hash.
+type slot struct {
+	Change bool
+	Hash   common.Uint256
+}
+
+// mkWithdrawLayout builds a withdrawal whose outputs follow the given layout. V1/V2 carry each
+// hash in a withdraw output at that position; V0 lists the hashes in its payload in layout
+// order and pays one plain output per slot.
+func mkWithdrawLayout(version byte, signers []uint8, ins []*common2.Input, to common.Uint168, layout []slot, progs []*program.Program) interfaces.Transaction {
+	pl := &payload.WithdrawFromSideChain{}
+	var outs []*common2.Output
+	if version == payload.WithdrawFromSideChainVersion {
+		pl.BlockHeight = 100
+		pl.GenesisBlockAddress = "XKUh4GLhFJiqAMTF6HyWQrV9pK9HcGUdfJ"
+	} else {
+		pl.Signers = signers
+	}
+	for _, sl := range layout {
+		switch {
+		case sl.Change:
+			outs = append(outs, lightnode.Output(to, 100))
+		case version == payload.WithdrawFromSideChainVersion:
+			pl.SideChainTransactionHashes = append(pl.SideChainTransactionHashes, sl.Hash)
+			outs = append(outs, lightnode.Output(to, 100))
+		default:
+			outs = append(outs, withdrawOutput(to, 100, sl.Hash))
+		}
+	}
+	return transaction.CreateTransaction(common2.TxVersion09, common2.WithdrawFromSideChain, version, pl, nil, ins, outs, 0, progs)
+}
+
 // ---------------------------------------------------------------------------------------------
 // V2 (Schnorr)
 
@@ -273,6 +317,17 @@ func signerLists(n int) [][]uint8 {
 		}
 	}
 	rec(nil, 4)
+	// the first k arbiters for every k around both quorum formulas (2/3 and 2/3+1)
+	for k := n*2/3 - 1; k <= n*2/3+2 && k <= n; k++ {
+		if k < 0 {
+			continue
+		}
+		var l []uint8
+		for i := 0; i < k; i++ {
+			l = append(l, uint8(i))
+		}
+		out = append(out, l)
+	}
 	return out
 }
 
@@ -348,7 +403,7 @@ func (f *fixtureA) judgeV2(c caseV2, refsPrefixes []byte, progs []*program.Progr
 	if !onlyCross(refsPrefixes) {
 		return "non-cross-chain-utxo", "accepted although it spends a UTXO that is not a cross-chain UTXO"
 	}
-	need := required(c.Era, 2, f.n)
+	need := required(eraByName(f.n, c.Era), 2, f.n, c.H)
 	seen := map[uint8]bool{}
 	dup, oob := false, false
 	var idx []int
@@ -413,16 +468,11 @@ func (f *fixtureA) runV2(eraName string, full bool) v2Result {
 	res := v2Result{PanicSites: map[string]int{}, Classes: map[string]int{}}
 	viol := map[string]*evid.Violation{}
 	var order []string
-	var er era
-	for _, e := range eras(f.n) {
-		if e.Name == eraName {
-			er = e
-		}
-	}
+	er := eraByName(f.n, eraName)
 	cfg := f.node.Config(er.Tweak)
 	lists := signerLists(f.n)
 	for _, signers := range lists {
-		for _, h := range []uint32{restrictionH - 1, restrictionH, restrictionH + 1} {
+		for _, h := range er.Heights {
 			type pr struct{ prog, refs string }
 			var combos []pr
 			for _, pv := range progVariants {
@@ -468,7 +518,11 @@ func (f *fixtureA) runV2(eraName string, full bool) v2Result {
 				} else {
 					cls = "rejected: " + v.Err.Error()
 				}
-				res.Classes[fmt.Sprintf("v2|%s|%s|prog=%s|refs=%s|%s", eraName, band(h), pc.prog, pc.refs, cls)]++
+				pos := band(h)
+				if eraName == "boundary" {
+					pos = fmt.Sprintf("h=%d|signers=%d", h, len(signers))
+				}
+				res.Classes[fmt.Sprintf("v2|%s|%s|prog=%s|refs=%s|%s", eraName, pos, pc.prog, pc.refs, cls)]++
 			}
 		}
 	}
@@ -591,7 +645,7 @@ func (f *fixtureA) judgeMS(c caseMS, prefixes []byte) (clause, what string) {
 	if c.NByte != f.n {
 		return "n-mismatch", "accepted although the script's n differs from the number of arbiters"
 	}
-	if need := required(c.Era, byte(c.Version), f.n); c.M < need {
+	if need := required(eraByName(f.n, c.Era), byte(c.Version), f.n, c.H); c.M < need {
 		return "quorum", fmt.Sprintf("accepted with m=%d, %d required", c.M, need)
 	}
 	return "", ""
@@ -605,8 +659,11 @@ func (f *fixtureA) runMS(full bool) v2Result {
 	for _, er := range eras(n) {
 		cfg := f.node.Config(er.Tweak)
 		for version := 0; version <= 1; version++ {
-			need := required(er.Name, byte(version), n)
-			ms := map[int]bool{1: true, need - 1: true, need: true, need + 1: true, n: true, n + 1: true}
+			ms := map[int]bool{1: true, n: true, n + 1: true}
+			for _, h := range er.Heights {
+				need := required(er, byte(version), n, h)
+				ms[need-1], ms[need], ms[need+1] = true, true, true
+			}
 			var mlist []int
 			for m := range ms {
 				if m >= 1 && m <= 16 {
@@ -626,7 +683,7 @@ func (f *fixtureA) runMS(full bool) v2Result {
 								if !full && rv.Name != "cross" && (second != "" || dn != 0) {
 									continue
 								}
-								for _, h := range []uint32{restrictionH - 1, restrictionH, restrictionH + 1} {
+								for _, h := range er.Heights {
 									c := caseMS{N: n, Version: version, Era: er.Name, H: h, Keys: kl.Name, M: m, NByte: nByte, Second: second, Refs: rv.Name}
 									v, prefixes := f.evalMS(c, cfg)
 									res.Evals++
@@ -653,10 +710,14 @@ func (f *fixtureA) runMS(full bool) v2Result {
 										cls = "rejected: " + v.Err.Error()
 									}
 									mclass := "m<required"
-									if m >= need {
+									if m >= required(er, byte(version), n, h) {
 										mclass = "m>=required"
 									}
-									res.Classes[strings.Join([]string{fmt.Sprintf("v%d", version), er.Name, "keys=" + kl.Name, mclass, fmt.Sprintf("dn=%d", dn), "second=" + second, "refs=" + rv.Name, cls}, "|")]++
+									eraPos := er.Name
+									if er.Name == "boundary" {
+										eraPos = fmt.Sprintf("boundary|h=%d|m=%d", h, m)
+									}
+									res.Classes[strings.Join([]string{fmt.Sprintf("v%d", version), eraPos, "keys=" + kl.Name, mclass, fmt.Sprintf("dn=%d", dn), "second=" + second, "refs=" + rv.Name, cls}, "|")]++
 								}
 							}
 						}
